@@ -292,7 +292,12 @@ def run(rep, tier, seed, selftest):
                 "depth x context assign/read/arg/argmiss; MC_Mutability.tla), checks the model of the typer's step insertion "
                 "and the mutability scan against the declarative rule (A = R) and emits each cell; every cell is rendered "
                 "as a minimal program and compiled by the real front end; accept/reject and the code on the construct are "
-                "compared with R. Non-trivial = distinct cells with a path, an address marker, a pointer/view shape or a rejection. "
+                "compared with R. Second dimension: cells with paths of <= 2 steps are crossed with every statement context "
+                "(block, loop block, then, else, else-if arm, final else after else-if, second else-if arm, after a label) and "
+                "address-of arguments of pointer type with every expression context (parenthesised, element of an array literal "
+                "argument, member of a struct literal argument, argument of a nested call, return value, condition); the callees "
+                "of the CallEffects family place their statement in every statement context; rule and machine ignore the context. "
+                "Non-trivial = distinct cells with a path, an address marker, a pointer/view shape or a rejection. "
                 "Non-interference: TLC enumerates the caller/callee family of CallEffects.tla (7 parameter kinds x 5 ways the "
                 "callee treats the parameter x 0..2 address markers, plus all pairs of parameters), computes verdict and the "
                 "caller's cells before/after the call; every program is compiled, the accepted ones executed with lli, and the "
